@@ -93,7 +93,7 @@ def bounds(tier, seed):
             'characters, truncation at every position; signature/payload swaps; foreign secret'}
 
 
-FLOORS = {'via_redirect': 200, 'plain_roundtrips': 500, 'signed_roundtrips': 20, 'tampered': 50000, 'quoted_values': 300}
+FLOORS = {'reused_request': 20000, 'via_redirect': 200, 'plain_roundtrips': 500, 'signed_roundtrips': 20, 'tampered': 50000, 'quoted_values': 300}
 
 
 def emit_cookie(om, name, value, secret, via_redirect=False):
@@ -159,6 +159,23 @@ def read_direct(om, pair, name, secret):
     return req.get_cookie(name, default=MISSING, secret=secret)
 
 
+def read_reused(om, proxy, first_pair, first_secret, pair, name, secret):
+    """one Request object: read the cookie of `first_pair`, replace (or delete) the Cookie header through the item
+    interface, read again -> (first value, second value)"""
+    armed = proxy.armed
+    proxy.armed = False
+    req = om.Request({'HTTP_COOKIE': first_pair})
+    try:
+        v1 = req.get_cookie(name, default=MISSING, secret=first_secret)
+    finally:
+        proxy.armed = armed
+    if pair is None:
+        del req['HTTP_COOKIE']
+    else:
+        req['HTTP_COOKIE'] = pair
+    return v1, req.get_cookie(name, default=MISSING, secret=secret)
+
+
 def work(spec):
     kind = spec[0]
     res = core.new_result()
@@ -174,8 +191,9 @@ def work(spec):
                 vals = [first + s for s in strings(n - 1)] if first else ['', 'x' * 4096]
             else:
                 vals = sorted({s[:p] + first + s[p:] for s in strings(n - 1) for p in range(len(s) + 1)})
+            prev_plain = None
             for i, v in enumerate(vals):
-                name = NAMES[i % len(NAMES)]
+                name = NAMES[(i // 2) % len(NAMES)]
                 case = {'kind': 'plain', 'name': name, 'value': v}
                 core.track(res, case)
                 res['states'] += 1
@@ -200,6 +218,18 @@ def work(spec):
                     core.add_violation(res, case, f'plain cookie {name}={v!r} sent back as {pair!r} reads {got!r}', sig=sig)
                 elif i % 200 == 0:
                     core.add_sample(res, {'set': v, 'cookie_header': pair, 'read': got})
+                # one Request object whose Cookie header is replaced after a first read
+                if got == exp and prev_plain and prev_plain[0] == name:
+                    _, pv, ppair = prev_plain
+                    v1, v2 = read_reused(om, proxy, ppair, None, pair, name, None)
+                    v3 = read_reused(om, proxy, pair, None, None, name, None)[1]
+                    res['transitions'] += 2
+                    c['reused_request'] += 2
+                    if v2 != got or v3 != MISSING:
+                        core.add_violation(res, dict(case, prev_pair=ppair), f'one Request object: Cookie {ppair!r} read ({v1!r}), header replaced by '
+                                           f'{pair!r}: reads {v2!r}; header deleted after a read: reads {v3!r}', sig='plain:stale-after-header-change')
+                if got == exp and v != '':
+                    prev_plain = (name, v, pair)
         elif kind == 'signed2':
             _, (si, k), vi = spec
             secret, value = SECRETS[si], SIGNED[vi]
@@ -282,6 +312,24 @@ def work(spec):
                 unp = proxy.loads_calls - b
                 ok = g == MISSING and unp == 0
                 res['outcomes'].add('tampered ' + ('absent' if ok else 'ACCEPTED' if g != MISSING else 'UNPICKLED'))
+                if ok:
+                    # the same forgery presented to a Request object that has just read the genuine cookie
+                    b = proxy.loads_calls
+                    proxy.armed = True
+                    try:
+                        g1, g2 = read_reused(om, proxy, pair, secret, hdr, name, sec)
+                    except Exception as e:   # noqa
+                        g1, g2 = value, f'<<raised {type(e).__name__}: {e}>>'
+                    finally:
+                        proxy.armed = False
+                    c['reused_request'] += 1
+                    res['transitions'] += 1
+                    if g1 != value or g2 != MISSING or proxy.loads_calls - b != 1:
+                        core.add_violation(res, dict(case0, edit=what, header=hdr, secret=sec, reused=True),
+                                           f'one Request object reads the genuine cookie ({g1!r}), then its Cookie header is replaced by the '
+                                           f'{what} {hdr!r}: read {g2!r}, unpickler reached {proxy.loads_calls - b - 1} more time(s)',
+                                           sig='forged:accepted-after-genuine')
+                    return
                 if not ok:
                     core.add_violation(res, dict(case0, edit=what, header=hdr, secret=sec),
                                        f'{what} of the signed cookie ({value!r}, secret {secret!r}) sent as {hdr!r}: read {g!r}, '
@@ -349,6 +397,13 @@ def replay(case):
             if err:
                 return f'plain {case["value"]!r}: {err}'
             got = read_wsgi(om, pair, case['name'], None)
+            if case.get('prev_pair'):
+                v1, v2 = read_reused(om, proxy, case['prev_pair'], None, pair, case['name'], None)
+                v3 = read_reused(om, proxy, pair, None, None, case['name'], None)[1]
+                if v2 == got and v3 == MISSING:
+                    return None
+                return (f'one Request object: get_cookie({case["name"]!r}) with Cookie {case["prev_pair"]!r} reads {v1!r}; after request["HTTP_COOKIE"] = {pair!r} it reads '
+                        f'{v2!r} (a fresh request reads {got!r}); after a read and del request["HTTP_COOKIE"] it reads {v3!r}')
             if got == case['value'] or case['value'] == '':
                 return None
             return (f'response.set_cookie({case["name"]!r}, {case["value"]!r}){" followed by redirect()" if case.get("redirect") else ""} emits {pair!r}; sent back as the Cookie header, '
@@ -375,6 +430,16 @@ def replay(case):
         if not err:
             read_wsgi(om, pair, name, secret)
         proxy.loads_calls = 0
+        if case.get('reused'):
+            proxy.armed = True
+            try:
+                g1, g2 = read_reused(om, proxy, pair, secret, case['header'], name, case['secret'])
+            except Exception as e:   # noqa
+                g1, g2 = value, f'<<raised {type(e).__name__}: {e}>>'
+            if g1 == value and g2 == MISSING and proxy.loads_calls == 1:
+                return None
+            return (f'one Request object reads the genuine signed cookie ({g1!r}, secret {secret!r}); then request["HTTP_COOKIE"] is set to the {case["edit"]} '
+                    f'{case["header"]!r}: get_cookie (secret {case["secret"]!r}) reads {g2!r}, unpickler reached {proxy.loads_calls - 1} more time(s)')
         proxy.armed = True
         try:
             g = read_direct(om, case['header'], name, case['secret'])
